@@ -15,12 +15,29 @@ def nondominated(F):
     return True
 
 
-def gen_front(rng, max_n=24, objs=(2, 2, 3, 3, 4, 5)):
+def gen_front(rng, max_n=24, objs=(2, 2, 3, 3, 4, 5), styles=None):
     """non-dominated fronts: continuous simplex, grid-valued, with constant objectives, tied extremes, duplicates"""
-    for _ in range(200):
+    for _ in range(400):
         M = rng.choice(objs); N = rng.randint(1, max_n)
-        style = rng.choice(["simplex", "simplex", "grid", "grid", "perm", "const", "dups", "tiedext", "tinyrange", "hugerange"])
-        if style == "simplex":
+        style = rng.choice(styles or ["simplex", "simplex", "grid", "gridfront", "gridfront", "perm", "const", "dups", "tiedext", "tinyrange", "hugerange"])
+        tied = style == "tiedfront"
+        if tied:
+            style = "gridfront"
+        if style == "gridfront":
+            # the non-dominated subset of a cloud of grid points: distinct points, many coordinate ties, tied minima / maxima held by different points
+            g = rng.choice([3, 5, 8])
+            P = np.unique(np.array([[float(rng.randint(0, g)) for _ in range(M)] for _ in range(rng.choice([15, 40, 80]))]), axis=0)
+            keep = [i for i in range(len(P)) if not any(np.all(P[j] <= P[i]) and np.any(P[j] < P[i]) for j in range(len(P)))]
+            F = P[keep]
+            if len(F) > max_n:
+                F = F[sorted(rng.sample(range(len(F)), max_n))]
+            if tied:
+                # at least two objectives whose maximum is held by several different points
+                nt = sum(1 for m in range(M) if (F[:, m] == F[:, m].max()).sum() > 1)
+                if nt < 2:
+                    continue
+                style = "tiedfront"
+        elif style == "simplex":
             F = np.array([[rng.random() for _ in range(M)] for _ in range(N)]); F = F / F.sum(axis=1, keepdims=True)
         elif style == "grid":
             F = np.array([[float(rng.randint(0, 4)) for _ in range(M)] for _ in range(N)])
